@@ -453,6 +453,18 @@ def generate_document(schema: GraphQLSchema, seed: int, dirty: Optional[Set[str]
     for i in range(n_ops):
         kind = rng.choice([k for k in kinds if k != "subscription" or allow_subscription])
         name = "%s%d" % (rng.choice(OP_NAMES), i)
+        if i == 1 and names and rng.random() < 0.12:
+            # two operations whose names differ only in letter case (getThing0 / Getthing0): distinct files, classes, methods and constants
+            base0 = names[0]
+            variant = base0[0] + base0[1:].lower() if base0[1:].lower() != base0[1:] else base0.upper()
+            import re as _re
+
+            def _snake(n_):
+                return "_".join(w.lower() for w in _re.findall(r"[A-Z]?[a-z]+|[A-Z]+(?=[A-Z][a-z]|\d|\W|_|$)|\d+", n_))
+            # (only pairs that stay distinct after the file-name mapping: merged pairs are C18's listed matter)
+            if variant != base0 and _snake(variant) != _snake(base0) and variant.lower() != base0.lower().replace("_", "") + "_":
+                name = variant
+                g.feats.add("op.names_differ_in_case_only")
         text = g.operation(kind, name)
         if text is None:
             text = g.operation("query", name)
